@@ -177,7 +177,10 @@ func (s *SMF) RecordFrom(inport drivers.In, bpm float64) (stop func(), err error
 	_stop, _err := tr.RecordFrom(inport, ticks, bpm)
 
 	if _err != nil {
-		_stop()
+		// the port could not be opened or listened to: there is no listener to stop
+		if _stop != nil {
+			_stop()
+		}
 		time.Sleep(time.Second)
 		tr.Close(0)
 		s.Add(tr)
